@@ -30,6 +30,9 @@ for i, a in enumerate(args):
     if a == "--src":
         src = args[i + 1]
 ident = f"{prop}{var}"
+for i, a in enumerate(args):
+    if a == "--id":
+        ident = args[i + 1]
 d = f"{src}/{prop}/{var}" if os.path.isdir(f"{src}/{prop}/{var}") else \
     (f"{src}/{prop}{var}" if os.path.isdir(f"{src}/{prop}{var}") else f"{src}/{prop}")
 wt = f"/tmp/mutrun/{ident}"
